@@ -811,6 +811,112 @@ func TestInheritedCycles(t *testing.T) {
 }
 
 // ---------------------------------------------------------------------------------------
+// Example on ladders with cycles: n levels of small types, the last level refers back to the first,
+// one alternative of the first level terminates. The example is a few hundred bytes whatever n is;
+// with 30-44 levels a builder that tries the alternatives of every level again for every choice
+// above them needs 2^n steps (years), one that remembers what failed needs microseconds - the 20 s
+// budget is no timing oracle. A call that does not return ends the process with the case recorded.
+const chkGrowth = "example-on-cyclic-ladders"
+
+type GrowthCase struct {
+	Form   string   `json:"form"`
+	Levels int      `json:"levels"`
+	Leaf   string   `json:"terminating_alternative_at"`
+	Wired  bool     `json:"types_know_types"`
+	Sample lib.Spec `json:"spec_of_a_ladder_of_3_levels"`
+}
+
+func init() {
+	run.RegisterReplay(chkGrowth, func(t run.TB, raw json.RawMessage) {
+		var c GrowthCase
+		if err := json.Unmarshal(raw, &c); err != nil {
+			t.Fatalf("bad case: %v", err)
+		}
+		checkGrowth(t, c)
+	})
+}
+
+func cyclicLadder(form string, n int, leafAt string, wired bool) lib.Spec {
+	sp := lib.Spec{Schema: "@t0", TypesKnowTypes: wired}
+	name := func(p string, i int) string { return fmt.Sprintf("@%s%d", p, i%n) }
+	for i := 0; i < n; i++ {
+		list := name("u", i) + " | " + name("v", i)
+		if form == "three-alternatives" {
+			list += " | " + name("w", i)
+		}
+		if i == 0 {
+			switch leafAt {
+			case "first":
+				list = "@leaf | " + list
+			default:
+				list += " | @leaf"
+			}
+		}
+		switch form {
+		case "bare-lists":
+			sp.Types = append(sp.Types, lib.Named{Name: name("t", i), Text: list})
+		default:
+			sp.Types = append(sp.Types, lib.Named{Name: name("t", i), Text: "{\n  \"p\": " + list + "\n}"})
+		}
+		sp.Types = append(sp.Types, lib.Named{Name: name("u", i), Text: "{\n  \"x\": " + name("t", i+1) + "\n}"})
+		sp.Types = append(sp.Types, lib.Named{Name: name("v", i), Text: "{\n  \"y\": " + name("t", i+1) + "\n}"})
+		if form == "three-alternatives" {
+			sp.Types = append(sp.Types, lib.Named{Name: name("w", i), Text: "{\n  \"z\": " + name("t", i+1) + ",\n  \"n\": 1\n}"})
+		}
+	}
+	sp.Types = append(sp.Types, lib.Named{Name: "@leaf", Text: "1"})
+	return sp
+}
+
+func checkGrowth(t run.TB, c GrowthCase) {
+	n := c.Levels
+	sp := cyclicLadder(c.Form, n, c.Leaf, c.Wired)
+	s, add := lib.Build(sp)
+	if add.Panic != "" || !add.OK {
+		run.Fail(t, chkGrowth, c, "AddType: %v", add)
+	}
+	var cr, er lib.Res
+	if msg := timed("Check", 20*time.Second, func() { cr = lib.Check(s) }); msg != "" {
+		run.FailAndExit(chkGrowth, c, "%s (a ladder of %d levels, %d small types)", msg, n, len(sp.Types))
+	}
+	if !cr.OK {
+		run.Fail(t, chkGrowth, c, "Check refuses a ladder of %d levels whose first level has a terminating alternative: %v", n, cr)
+	}
+	var ex []byte
+	if msg := timedMem("Example", 20*time.Second, 1<<30, func() { ex, er = lib.Example(s) }); msg != "" {
+		run.FailAndExit(chkGrowth, c, "%s (a ladder of %d levels, %d small types; the example of such a ladder is a few hundred bytes)", msg, n, len(sp.Types))
+	}
+	if !er.OK {
+		run.Fail(t, chkGrowth, c, "Example fails on an accepted ladder of %d levels: %v", n, er)
+	}
+	var vr lib.Res
+	if msg := timed("Validate", 20*time.Second, func() { vr = lib.Validate(s, ex) }); msg != "" {
+		run.FailAndExit(chkGrowth, c, "%s (the example %s of a ladder of %d levels)", msg, ex, n)
+	}
+	if !vr.OK {
+		run.Fail(t, chkGrowth, c, "the example %s of the ladder of %d levels is rejected by its own schema: %v", ex, n, vr)
+	}
+}
+
+func TestExampleGrowth(t *testing.T) {
+	run.SkipIfReplaying(t)
+	defer run.Done(t, chkGrowth)
+	rapid.Check(t, func(t *rapid.T) {
+		c := GrowthCase{
+			Form:   rapid.SampledFrom([]string{"objects-with-alternatives", "three-alternatives", "bare-lists"}).Draw(t, "form"),
+			Levels: rapid.IntRange(30, 44).Draw(t, "levels"),
+			Leaf:   rapid.SampledFrom([]string{"first", "last"}).Draw(t, "leafAt"),
+			Wired:  rapid.IntRange(0, 3).Draw(t, "wired") == 0,
+		}
+		c.Sample = cyclicLadder(c.Form, 3, c.Leaf, c.Wired)
+		checkGrowth(t, c)
+		run.Eval(chkGrowth, true, c.Form, fmt.Sprint(c.Levels), c.Leaf, fmt.Sprint(c.Wired))
+		run.Label("ladder:" + c.Form)
+		run.Sample(chkGrowth, c)
+	})
+}
+
+// ---------------------------------------------------------------------------------------
 // One name, two tables: a type object may be given a definition of a name of its own (added to
 // that type object), next to another definition of the same name elsewhere. A chain of required
 // references is followed through the table of the type that writes the reference - whatever other
